@@ -4,7 +4,7 @@ import itertools
 from . import dast, refsem
 
 FOCI = ["exclude-crossed-derived", "preamble-in-crossing", "exclude+preamble", "implied-early-window", "weighted-exclusion",
-        "leftover", "parallel-start", "derived-of-derived-crossed"]
+        "leftover", "parallel-start", "derived-of-derived-crossed", "window-over-window"]
 LEVEL_POOL = ["x", "y", "z", "w"]
 FACTOR_NAMES = ["A", "B", "C", "E"]
 
@@ -316,6 +316,28 @@ def gen_cross_design(rng, cfg, tier="quick", constraint_kinds=None, single=True)
                     factors.append(d_)
                     forced_cross.extend([d_["id"], basics_[0]["id"]])
                     j += 1
+    if focus == "window-over-window":
+        # a crossed (or constrained) window factor U whose argument T is itself a Transition/Window factor, T starting
+        # at its default trial or at an explicit one: where U's window lies relative to T's first trial is the point
+        basics_ = [f for f in factors if f["kind"] == "basic"]
+        t_ = _gen_derived(rng, only(win_transition=rng.random() < 0.3, win_window=True), basics_, j)
+        if t_ is not None and t_["window"]["stride"] == 1 and t_["window"]["kind"] != "within":
+            if t_["window"]["kind"] == "window" and rng.random() < 0.6:
+                t_["window"]["start"] = rng.randint(0, t_["window"]["width"] + 1)
+                t_ = _retable(rng, cfg, factors, t_)
+            if t_ is not None:
+                factors.append(t_)
+                j += 1
+                u_ = None
+                for _ in range(4):
+                    u_ = _gen_derived(rng, only(win_window=True), factors, j, force_args=[t_] + ([rng.choice(basics_)] if rng.random() < 0.25 else []))
+                    if u_ is not None and u_["window"]["stride"] == 1:
+                        break
+                    u_ = None
+                if u_ is not None:
+                    factors.append(u_)
+                    forced_cross.append(u_["id"])
+                    j += 1
     if focus == "implied-early-window":
         d = _gen_derived(rng, only(win_window=True), [f for f in factors if f["kind"] == "basic"], j)
         if d is not None:
@@ -398,7 +420,38 @@ def gen_design(rng, cfg, tier="quick", **kw):
         ast = gencomb.gen_combinator_design(rng, dict(cfg, derived=max(1, cfg.get("derived", 0)), cross_derived=True), tier, rng.choice(["multicross", "multicross", "merge"]))
         if ast is not None:
             return ast
-    if focus == "leftover" and rng.random() < 0.5:
+    if focus == "leftover" and rng.random() < 0.35:
+        # A Transition factor in the crossing next to within-trial/basic factors, repeated with a partial last round exactly
+        # as long as the number of combinations of the non-complex crossed factors: the one leftover length at which a
+        # combinatoric sampler can mistake "one trial per combination" for the partial round it is.
+        for _ in range(12):
+            ast = gen_template_design(rng, cfg, tier)
+            if any(f["id"] == "d1" for f in ast["factors"]):
+                break
+        else:
+            ast = None
+        if ast is not None:
+            b = ast["block"]
+            fb = {f["id"]: f for f in ast["factors"]}
+            if rng.random() < 0.7:
+                for f in ast["factors"]:
+                    for lv in f["levels"]:
+                        if f["kind"] == "basic":
+                            lv[1] = 1
+                        else:
+                            lv["weight"] = 1
+            b["crossing"] = rng.choice([["d0", "d1"], ["d0", "d1"], ["d1", "d0"], ["f0", "d1"], ["f1", "d1"]])
+            b["constraints"] = []
+            b["rcc"] = True
+            size = 1
+            q = 1
+            for c in b["crossing"]:
+                size *= sum(_weights(fb[c]))
+                if c != "d1":
+                    q *= len(fb[c]["levels"])
+            n = 1 + size * rng.choice([1, 1, 2]) + rng.choice([q, q, q, 1, size - 1])
+            return {"factors": ast["factors"], "block": {"kind": "repeat", "block": b, "constraints": [{"id": "rm", "kind": "mintrials", "n": n}]}}
+    if focus == "leftover" and rng.random() < 0.6:
         # a Stroop-like block whose trial count leaves a partial last run: MinimumTrials on the block or Repeat around it
         ast = gen_template_design(rng, cfg, tier)
         b = ast["block"]
@@ -412,12 +465,17 @@ def gen_design(rng, cfg, tier="quick", **kw):
                 rng.choice(fb["d0"]["levels"])["weight"] = 2
         size = 1
         ncomb = 1
+        pre = 0
         for c in b["crossing"]:
             size *= sum(_weights(fb[c]))
-            ncomb *= len(fb[c]["levels"])
+            if fb[c]["kind"] == "derived" and fb[c]["window"]["kind"] != "within":
+                # a partial run as long as the number of combinations of the OTHER crossed factors is the interesting length
+                pre = max(pre, fb[c]["window"]["width"] - 1)
+            else:
+                ncomb *= len(fb[c]["levels"])
         b["constraints"] = [c for c in b["constraints"] if c["kind"] != "mintrials"]
         q = rng.choice([ncomb, ncomb, 1, size - 1, rng.randint(1, max(1, size))])
-        n = max(1, min(size * rng.choice([1, 1, 2]) + max(0, q), cfg.get("max_T", 8) + 3))
+        n = max(1, min(pre + size * rng.choice([1, 1, 2]) + max(0, q), cfg.get("max_T", 8) + 3))
         mt = {"id": "rm", "kind": "mintrials", "n": n}
         if rng.random() < 0.5:
             b["constraints"].append(mt)
@@ -533,8 +591,9 @@ def gen_template_design(rng, cfg, tier="quick", smgen_friendly=False):
     factors.append(congruent)
     has_tr = rng.random() < 0.4
     if has_tr:
-        src = rng.choice([color, word])
-        names = [n for n, _ in src["levels"]]
+        # the repetition of a colour, of a word, or (a third of the time) of congruency itself: a Transition over a derived factor
+        src = rng.choice([color, word, congruent]) if rng.random() < 0.5 else rng.choice([color, word])
+        names = [n for n, _ in src["levels"]] if src["kind"] == "basic" else [l["name"] for l in src["levels"]]
         rep_rows = [[[a, a]] for a in names]
         sw_rows = [[[a, b]] for a in names for b in names if a != b]
         factors.append({"id": "d1", "kind": "derived", "name": "repeat", "window": {"kind": "transition", "width": 2, "stride": 1, "start": 1},
